@@ -594,3 +594,302 @@ pub fn exists<P: AsRef<Path>>(path: P) -> io::Result<bool> {
             false
         ))
 }
+
+// ---------------------------------------------------------------------------------------------
+// `fs::File` / `fs::OpenOptions` over the simulated file system
+//
+// Code under test that writes through `OpenOptions::new().write(true).create(true).truncate(true)
+// .open(p)?.write_all(..)` or reads through `File::open(p)?.read_to_string(..)` must meet the same
+// simulated tree, and every step (open, each write, each read, sync) is an OS call of its own in
+// the fault plan - so "the second of two calls fails" is reachable for such code too. Without a
+// simulated OS everything passes through to std.
+
+#[derive(Clone, Debug, Default)]
+pub struct OpenOptions {
+    read: bool,
+    write: bool,
+    append: bool,
+    truncate: bool,
+    create: bool,
+    create_new: bool,
+}
+
+macro_rules! flag {
+    ($name:ident) => {
+        pub fn $name(&mut self, v: bool) -> &mut Self {
+            self.$name = v;
+            self
+        }
+    };
+}
+
+impl OpenOptions {
+    pub fn new() -> Self {
+        Self::default()
+    }
+    flag!(read);
+    flag!(write);
+    flag!(append);
+    flag!(truncate);
+    flag!(create);
+    flag!(create_new);
+
+    fn std_options(&self) -> std::fs::OpenOptions {
+        let mut o = std::fs::OpenOptions::new();
+        o.read(self.read).write(self.write).append(self.append).truncate(self.truncate).create(self.create).create_new(self.create_new);
+        o
+    }
+
+    pub fn open<P: AsRef<Path>>(&self, path: P) -> io::Result<File> {
+        let p = p2s(&path);
+        let flags = format!("r{}w{}a{}t{}c{}n{}", self.read as u8, self.write as u8, self.append as u8, self.truncate as u8, self.create as u8, self.create_new as u8);
+        match route() {
+            Route::Pass => self.std_options().open(path).map(|f| File(Inner::Real(f))),
+            Route::Real(root, idx, fault) => {
+                if let Some(f) = fault {
+                    return finish(idx, "open", vec![p, flags], Err(errno_error(f.errno)), |_: &File| "fd".to_string(), true, false);
+                }
+                let res = self.std_options().open(real_join(&root, &p)).map(|f| File(Inner::Real(f)));
+                finish(idx, "open", vec![p, flags], res, |_: &File| "fd".to_string(), false, false)
+            }
+            Route::Sim(idx, fault) => {
+                let injected = fault.is_some();
+                let writes = self.write || self.append;
+                let res = os::with(|os: &mut SimOs| -> io::Result<File> {
+                    if let Some(f) = fault {
+                        return e(f.errno);
+                    }
+                    if !self.read && !writes {
+                        return e(libc::EINVAL);
+                    }
+                    let demands_dir = p.ends_with('/') || p.ends_with("/.");
+                    let np = npath(&p)?;
+                    if demands_dir && matches!(os.nodes.get(&np), Some(Node::File(_))) {
+                        return e(libc::ENOTDIR);
+                    }
+                    os.walk_parent(&np).or_else(e)?;
+                    if os.is_dir(&np) {
+                        if writes || self.create || self.create_new {
+                            return e(if self.create_new { libc::EEXIST } else { libc::EISDIR });
+                        }
+                        // a directory opens for reading; the read fails
+                        return Ok(File(Inner::Sim { path: np, pos: 0, read: true, write: false, append: false }));
+                    }
+                    let exists = os.exists(&np);
+                    if exists && self.create_new {
+                        return e(libc::EEXIST);
+                    }
+                    if !exists {
+                        if missing_errno(&np) != libc::ENOENT {
+                            return e(missing_errno(&np));
+                        }
+                        if !(self.create || self.create_new) || !writes {
+                            return e(libc::ENOENT);
+                        }
+                        os.nodes.insert(np.clone(), Node::File(Vec::new()));
+                    } else if writes && os.readonly.contains(&np) {
+                        return e(libc::EACCES);
+                    }
+                    if self.truncate && writes {
+                        os.nodes.insert(np.clone(), Node::File(Vec::new()));
+                    }
+                    Ok(File(Inner::Sim { path: np, pos: 0, read: self.read, write: writes, append: self.append }))
+                })
+                .unwrap();
+                finish(idx, "open", vec![p, flags], res, |_: &File| "fd".to_string(), injected, false)
+            }
+        }
+    }
+}
+
+enum Inner {
+    Real(std::fs::File),
+    Sim { path: String, pos: usize, read: bool, write: bool, append: bool },
+}
+
+pub struct File(Inner);
+
+impl std::fmt::Debug for File {
+    fn fmt(&self, f: &mut std::fmt::Formatter<'_>) -> std::fmt::Result {
+        match &self.0 {
+            Inner::Real(r) => r.fmt(f),
+            Inner::Sim { path, .. } => write!(f, "File(sim:{path})"),
+        }
+    }
+}
+
+impl File {
+    pub fn open<P: AsRef<Path>>(path: P) -> io::Result<File> {
+        OpenOptions::new().read(true).open(path)
+    }
+    pub fn create<P: AsRef<Path>>(path: P) -> io::Result<File> {
+        OpenOptions::new().write(true).create(true).truncate(true).open(path)
+    }
+    pub fn create_new<P: AsRef<Path>>(path: P) -> io::Result<File> {
+        OpenOptions::new().read(true).write(true).create_new(true).open(path)
+    }
+    pub fn options() -> OpenOptions {
+        OpenOptions::new()
+    }
+    fn sync(&self, op: &'static str) -> io::Result<()> {
+        match &self.0 {
+            Inner::Real(f) => f.sync_all(),
+            Inner::Sim { path, .. } => {
+                let (idx, fault) = os::with(|os| os.take_fault()).unwrap_or((0, None));
+                let res = match fault {
+                    Some(f) => e(f.errno),
+                    None => Ok(()),
+                };
+                finish(idx, op, vec![path.clone()], res, |_: &()| "()".to_string(), fault.is_some(), false)
+            }
+        }
+    }
+    pub fn sync_all(&self) -> io::Result<()> {
+        self.sync("fsync")
+    }
+    pub fn sync_data(&self) -> io::Result<()> {
+        self.sync("fdatasync")
+    }
+    pub fn set_len(&self, size: u64) -> io::Result<()> {
+        match &self.0 {
+            Inner::Real(f) => f.set_len(size),
+            Inner::Sim { path, write, .. } => {
+                let (idx, fault) = os::with(|os| os.take_fault()).unwrap_or((0, None));
+                let res = os::with(|os: &mut SimOs| -> io::Result<()> {
+                    if let Some(f) = fault {
+                        return e(f.errno);
+                    }
+                    if !*write {
+                        return e(libc::EINVAL);
+                    }
+                    if let Some(Node::File(b)) = os.nodes.get_mut(path) {
+                        b.resize(size as usize, 0);
+                    }
+                    Ok(())
+                })
+                .unwrap_or(Ok(()));
+                finish(idx, "ftruncate", vec![path.clone(), size.to_string()], res, |_: &()| "()".to_string(), fault.is_some(), false)
+            }
+        }
+    }
+    pub fn metadata(&self) -> io::Result<std::fs::Metadata> {
+        match &self.0 {
+            Inner::Real(f) => f.metadata(),
+            Inner::Sim { .. } => Err(io::Error::new(io::ErrorKind::Unsupported, "metadata of a simulated file")),
+        }
+    }
+    fn sim_read(&mut self, out: &mut [u8]) -> io::Result<usize> {
+        let Inner::Sim { path, pos, read, .. } = &mut self.0 else { unreachable!() };
+        let (idx, fault) = os::with(|os| os.take_fault()).unwrap_or((0, None));
+        let res = os::with(|os: &mut SimOs| -> io::Result<usize> {
+            if let Some(f) = fault {
+                return e(f.errno);
+            }
+            if !*read {
+                return e(libc::EBADF);
+            }
+            match os.nodes.get(path.as_str()) {
+                Some(Node::Dir) => e(libc::EISDIR),
+                None if path.is_empty() => e(libc::EISDIR),
+                None => Ok(0),
+                Some(Node::File(b)) => {
+                    let n = b.len().saturating_sub(*pos).min(out.len());
+                    out[..n].copy_from_slice(&b[*pos..*pos + n]);
+                    *pos += n;
+                    Ok(n)
+                }
+            }
+        })
+        .unwrap_or(Ok(0));
+        let shown = res.as_ref().map(|n| String::from_utf8_lossy(&out[..*n]).into_owned()).unwrap_or_default();
+        finish(idx, "file_read", vec![path.clone()], res, move |_: &usize| shown, fault.is_some(), false)
+    }
+    fn sim_write(&mut self, data: &[u8]) -> io::Result<usize> {
+        let Inner::Sim { path, pos, write, append, .. } = &mut self.0 else { unreachable!() };
+        let (idx, fault) = os::with(|os| os.take_fault()).unwrap_or((0, None));
+        let mut torn = false;
+        let res = os::with(|os: &mut SimOs| -> io::Result<usize> {
+            let take = match fault {
+                Some(f) if f.torn == 0 => return e(f.errno),
+                // torn: half of the buffer reaches the file, then the call fails
+                Some(_) => data.len() / 2,
+                None => data.len(),
+            };
+            if !*write {
+                return e(libc::EBADF);
+            }
+            if let Some(Node::File(b)) = os.nodes.get_mut(path.as_str()) {
+                if *append {
+                    *pos = b.len();
+                }
+                if b.len() < *pos {
+                    b.resize(*pos, 0);
+                }
+                let end = *pos + take;
+                if b.len() < end {
+                    b.resize(end, 0);
+                }
+                b[*pos..end].copy_from_slice(&data[..take]);
+                *pos = end;
+            }
+            match fault {
+                Some(f) => {
+                    torn = take > 0;
+                    e(f.errno)
+                }
+                None => Ok(take),
+            }
+        })
+        .unwrap_or(Ok(data.len()));
+        finish(idx, "file_write", vec![path.clone(), String::from_utf8_lossy(data).into_owned()], res, |n: &usize| n.to_string(), fault.is_some(), torn)
+    }
+}
+
+impl io::Read for File {
+    fn read(&mut self, out: &mut [u8]) -> io::Result<usize> {
+        match &mut self.0 {
+            Inner::Real(f) => f.read(out),
+            Inner::Sim { .. } => self.sim_read(out),
+        }
+    }
+}
+
+impl io::Write for File {
+    fn write(&mut self, data: &[u8]) -> io::Result<usize> {
+        match &mut self.0 {
+            Inner::Real(f) => f.write(data),
+            Inner::Sim { .. } => self.sim_write(data),
+        }
+    }
+    fn flush(&mut self) -> io::Result<()> {
+        match &mut self.0 {
+            Inner::Real(f) => f.flush(),
+            Inner::Sim { .. } => Ok(()),
+        }
+    }
+}
+
+impl io::Seek for File {
+    fn seek(&mut self, to: io::SeekFrom) -> io::Result<u64> {
+        match &mut self.0 {
+            Inner::Real(f) => f.seek(to),
+            Inner::Sim { path, pos, .. } => {
+                let len = os::with(|os| match os.nodes.get(path.as_str()) {
+                    Some(Node::File(b)) => b.len(),
+                    _ => 0,
+                })
+                .unwrap_or(0) as i64;
+                let new = match to {
+                    io::SeekFrom::Start(n) => n as i64,
+                    io::SeekFrom::End(d) => len + d,
+                    io::SeekFrom::Current(d) => *pos as i64 + d,
+                };
+                if new < 0 {
+                    return e(libc::EINVAL);
+                }
+                *pos = new as usize;
+                Ok(new as u64)
+            }
+        }
+    }
+}
